@@ -337,7 +337,43 @@ def run_inplace(res: Result, dim, system, tier):
                     if bad:
                         res.violation(f"value|{cls}", f"after {oname}: {bad}", pcase)
                         break
-    res.sample({"kind": "inplace", "sys": list(system), "operators": [n for n, _, _ in INPLACE]})
+    # derive-then-assign: a vector derived from another one (an operation that retains some coordinate group) shares no state with it
+    import copy as _copy
+
+    derive = [("rotateZ", lambda v, a: v.rotateZ(a)), ("scale2D", lambda v, a: v.scale2D(2)), ("copy.copy", lambda v, a: _copy.copy(v)), ("neg2D", lambda v, a: v.neg2D)]
+    if dim >= 3:
+        derive += [("rotateX", lambda v, a: v.rotateX(a)), ("scale3D", lambda v, a: v.scale3D(2)), ("to_Vector3D.like", lambda v, a: v.to_Vector3D().like(v) if dim == 4 else v.to_Vector2D().like(v)),
+                   ("rotate_axis", lambda v, a: v.rotate_axis(vector.obj(x=0.5, y=-1.25, z=2.0), a))]
+    if dim == 4:
+        derive += [("boostZ", lambda v, a: v.boostZ(beta=sympy.Rational(1, 4))), ("to_own", lambda v, a: getattr(v, "to_" + "".join(L.field_names(system)))())]
+    settable = ["x", "y", "rho", "phi"] + (["z", "theta", "eta"] if dim >= 3 else []) + (["t", "tau"] if dim == 4 else [])
+    ang = sympy.Symbol("s_angle", real=True)
+    new = sympy.Symbol("newvalue", real=True)
+    for flavor in ("generic", "momentum"):
+        for dname, f in derive:
+            for name in settable:
+                for direction in ("assign to the derived vector", "assign to the source vector"):
+                    res.states += 1
+                    res.transitions += 2
+                    res.traces += 1
+                    res.evaluations += 1
+                    case = {"inplace": f"derive:{dname}", "sysA": list(system), "sysB": None, "flavor": flavor, "dim": dim, "setter": name, "direction": direction}
+                    cls = f"aliasing|{dname}|{name}|{L.sysname(system)}|{flavor}"
+                    try:
+                        v, _ = sym_vector(dim, system, flavor, "1")
+                        w = f(v, ang)
+                        target, other = (w, v) if direction.startswith("assign to the derived") else (v, w)
+                        before = L.system_of(other)
+                        setattr(target, name, new)
+                        after = L.system_of(other)
+                    except Exception as e:  # noqa: BLE001
+                        res.count("derive_then_assign_not_supported")
+                        continue
+                    if before != after:
+                        res.violation(cls, f"{direction} ({name} = newvalue) after w = v.{dname}(...) changed the other vector: {before} -> {after}", case)
+                    else:
+                        res.nontrivial += 1
+    res.sample({"kind": "inplace", "sys": list(system), "operators": [n for n, _, _ in INPLACE], "derive_then_assign": [d for d, _ in derive]})
 
 
 def run_shard(shard, tier):
